@@ -751,7 +751,11 @@ fn outside_domain_in(specs: &[Vec<u8>], cwd: Option<(&[u8], &Path)>) -> Option<&
                 }
             }
             let mut m = if q.is_nil() { Vec::new() } else { q.path().to_vec() };
-            if q.signature.contains(M::MUST_BE_DIR) && !m.is_empty() {
+            // git's normalize_path_copy leaves a trailing slash behind a final `..` or `.` component
+            // (`B/sub/../..` given from `B` is `B/` for git), which takes part in its common prefix
+            let last = p.path().rsplit(|b| *b == b'/').next().unwrap_or_default();
+            let dir_like = q.signature.contains(M::MUST_BE_DIR) || last == b".." || last == b".";
+            if dir_like && !m.is_empty() {
                 m.push(b'/');
             }
             // git's `item->prefix` counts the slash behind the prefix directory
